@@ -174,26 +174,24 @@ func c10Decompile(c clause) (Term, bool) {
 	return xIf.Apply(c.pi.name.Apply(headArgs...), vConj(goals...)), true
 }
 
-// c10FlattenBody rewrites Head :- Body with the body's right-nested conjunction as the decompiler prints it, and
+// c10Normalize rewrites Head :- Body as the list of its goals in order (as the decompiler prints it), with
 // variable goals as call(V) (ISO 7.6.2).
 func c10Normalize(cl Term) Term {
 	h, b := rHeadBody(cl)
-	var goals []Term
-	for {
-		c, ok := b.(Compound)
-		if ok && c.Functor() == xComma && c.Arity() == 2 {
-			goals = append(goals, c10Goal(c.Arg(0)))
-			b = c.Arg(1)
-			continue
-		}
-		goals = append(goals, c10Goal(b))
-		break
-	}
+	goals := c10Flatten(b, nil)
 	if len(goals) == 1 && goals[0] == Term(xTrue) {
 		// a fact: the compiled form has no body at all
 		return xIf.Apply(h, xTrue)
 	}
 	return xIf.Apply(h, vConj(goals...))
+}
+
+// c10Flatten lists the goals of a conjunction tree in order (conjunction is associative: (A, B), C = A, (B, C)).
+func c10Flatten(b Term, acc []Term) []Term {
+	if c, ok := b.(Compound); ok && c.Functor() == xComma && c.Arity() == 2 {
+		return c10Flatten(c.Arg(1), c10Flatten(c.Arg(0), acc))
+	}
+	return append(acc, c10Goal(b))
 }
 
 // c10CallVars shows every variable goal of a clause body as call(V).
